@@ -463,7 +463,7 @@ def bounded(tier, seed):
     res = native("history.py", {"seed": seed, "n": 2 if tier == "quick" else 20}, timeout=3000)
     if not res.get("ok"):
         raise RuntimeError(f"native driver failed: {res}")
-    return [{"name": "histories_vs_fresh_interpreter", "bound": "random histories (<= 6 earlier requests: operators with BCs coinciding in some attributes, interpolations, collection constructions, PDE rates on other grids) followed by a probe request; probe result compared with a fresh interpreter",
+    return [{"name": "histories_vs_fresh_interpreter", "bound": "random histories (<= 6 earlier requests: operators with BCs coinciding in some attributes, interpolations, collection constructions, PDE rates on other grids) followed by a probe request; probe result compared with a fresh interpreter; 8 solver kinds (fixed and adaptive) used for a second simulation vs a new solver object (bit-identical); a conditions object changed through its public interface between two requests for the same compiled operator",
              "cases": res["cases"], "failures": res["failures"]}]
 
 
